@@ -4,6 +4,7 @@
   the interning tables (`decodeNsTree` / `decodeNs`), for every `nodeOK` tree the serialiser accepts.
 -/
 import XotModel.Lemmas.RoundTripItems
+import XotModel.Lemmas.LineEnds
 
 namespace XotModel
 
@@ -87,12 +88,25 @@ theorem spellNode_denote (he : EnvFacts env) (inScope : List (Nat × Nat)) (n : 
     | comment str =>
       have hl := allNodes_leaf env hn rfl
       subst hl
-      exact ⟨.node (.comment str), rfl, rfl, rfl, rfl⟩
+      refine ⟨.node (.comment str), rfl, rfl, rfl, ?_⟩
+      -- no CR in the comment text (`valueOK`): the parser's line-end normalisation is the identity
+      have hcr : str.contains '\r' = false := by
+        simp only [Tree.value, valueOK, Bool.and_eq_true, Bool.not_eq_true'] at hval
+        exact hval.2
+      simp only [spellNode, spellNode.spellKids, denoteList_cons, NSNode.denote, sp0,
+        NSNode.denote.denoteList, normalizeLineEnds_noCr' str hcr]
+      rfl
     | pi target data =>
       have hl := allNodes_leaf env hn rfl
       subst hl
       refine ⟨.node (.pi (env.localName target) data), rfl, rfl, rfl, ?_⟩
-      simp only [spellNode, spellNode.spellKids, denoteList_cons, NSNode.denote, option_map_sp0_text, sp0,
+      have hdata : (data.map sp0).map (fun c => normalizeLineEnds c.text) = data := by
+        cases data with
+        | none => rfl
+        | some d =>
+          simp only [Tree.value, valueOK, Bool.and_eq_true, Bool.not_eq_true'] at hval
+          simp only [Option.map_some, sp0, normalizeLineEnds_noCr' d hval.2.2]
+      simp only [spellNode, spellNode.spellKids, denoteList_cons, NSNode.denote, hdata,
         NSNode.denote.denoteList]
       rfl
     | element name =>
